@@ -134,7 +134,7 @@ def sweep(ctx):
                 for cut in cuts:
                     muts.append(("truncate@%d" % cut, d[:cut], "noeffect"))
                 for ext in (b"\x00", b"\xff" * 4, os.urandom(16)):
-                    muts.append(("extend+%d" % len(ext), d + ext, "either" if not delivered else "dropped"))
+                    muts.append(("extend+%d" % len(ext), d + ext, "noeffect" if not delivered else "dropped"))      # (nothing may follow the tag: the quantifier names extensions)
                 for off, fmt, vals, nm in ((12, "B", range(256), "type"), (15, "B", (0, 1, 2, 255), "count"), (13, ">H", (0, 1, 65535), "length"),
                                            (16, ">L", (0, 0xFFFFFFFF, 0x80000000), "ack_bits"), (8, ">H", (1, 65535), "seq"), (10, ">H", (0, 1, 65535), "ack"),
                                            (4, ">L", (0, 0xFFFFFFFF), "time"), (0, "4s", (b"FSOC", b"FSOS", b"XXXX"), "magic")):
